@@ -602,7 +602,7 @@ class StmtMixin:
                 continue
             t = a
             ok = True
-            while z3.is_store(t):
+            while z3.is_store(t) and not (base_arr is not None and z3.eq(t, base_arr)):
                 idx = t.arg(1)
                 if self.feasible(st, idx < head.top):
                     ok = False
@@ -612,7 +612,7 @@ class StmtMixin:
                 continue
             if ok and base_arr is None and z3.is_const(t):
                 continue
-            raise Unsupported("%s modifies heap field %s of a pre-existing object, which its loop contract does not declare (modifies=[...])" % (what, k))
+            raise Unsupported("%s modifies heap field %s of a pre-existing object, which its loop contract does not declare (modifies=[...]) [%s]" % (what, k, str(a)[:300]))
         for k, v in st.glob.items():
             if k not in head.glob or head.glob[k] is not v:
                 if ("global:" + k) not in declared:
@@ -627,7 +627,7 @@ class StmtMixin:
             s2.env.update(extra_env)
             g = self.eval_spec(ex, s2, s2.env, cx.pre_fn if hasattr(cx, "pre_fn") else cx.pre, cx.contract.module)
             st.pc.extend(s2.pc[len(st.pc):])
-            if phase == "preserved" and lab in needs:
+            if phase in ("preserved", "entry") and lab in needs:
                 # opaque / reveal: only the listed invariant conjuncts are given to the solver for this obligation
                 keep = set(needs[lab])
                 sub = st.copy()
